@@ -150,6 +150,41 @@ Section AddrText.
     _ <- validate_checksum pub ck nano_checksum ;;
     if valid_pub 3 pub then Ok pub else Err ValueError.
 
+  (* ---- Nimiq: IBAN-style mod-97 checksum in front, Base32 (own alphabet) in groups of four.
+     The Python computes int(x / 10) in floating point; on the values that occur (< 10^6) that is
+     exact integer division -- tied by the correspondence, not proved. *)
+  Definition nim_val (c : N) : N := if (48 <=? c) && (c <=? 57) then c - 48 else c - 55.
+  Fixpoint nim_shift (fuel : nat) (rem ck : N) : N :=
+    match fuel with
+    | O => ck
+    | S f => if rem =? 0 then ck else nim_shift f (rem / 10) (ck * 10)
+    end.
+  Definition nim_add (ck v : N) : N :=
+    if v =? 0 then (ck * 10) mod 97 else (nim_shift 8 v ck + v) mod 97.
+  Definition nim_checksum (s : list N) : list N :=
+    let ck := 98 - nim_add (fold_left (fun acc c => nim_add acc (nim_val c)) s 0) 232600 in
+    [48 + ck / 10; 48 + ck mod 10].
+  Fixpoint nim_groups (fuel : nat) (s : list N) : list N :=
+    match fuel with
+    | O => s
+    | S f => if (length s <=? nim_group_len)%nat then s
+             else firstn nim_group_len s ++ [32] ++ nim_groups f (skipn nim_group_len s)
+    end.
+  Definition nim_encode (pub32 : list N) : res (list N) :=
+    e <- b32_enc_nopad (Some nim_alphabet) (firstn nim_hash_len (blake2b blake2b256_len pub32)) ;;
+    Ok (nim_prefix ++ nim_checksum e ++ [32] ++ nim_groups (length e) e).
+  (* decoder: symbols outside the Nimiq alphabet always end in ValueError (checksum mismatch or
+     Base32 rejection), whatever str.isdigit() says about them: the model exits directly *)
+  Definition nim_decode (addr : list N) : res (list N) :=
+    let a := filter (fun c => negb (c =? 32)) addr in
+    a' <- validate_and_remove_prefix a nim_prefix ;;
+    _ <- validate_length a' (nim_ck_enc_len + nim_hash_enc_len)%nat ;;
+    let ck := firstn nim_ck_enc_len a' in
+    let body := skipn nim_ck_enc_len a' in
+    if negb (forallb (fun c => memb c nim_alphabet) body) then Err ValueError
+    else _ <- validate_checksum body ck nim_checksum ;;
+         b32_dec (Some nim_alphabet) body.
+
   (* ---- SS58 *)
   Definition substrate_encode (fmt : N) (pub32 : list N) : res (list N) := ss58_enc pub32 fmt.
   Definition substrate_decode (curve fmt : N) (addr : list N) : res (list N) :=
